@@ -90,7 +90,7 @@ def extra_c11(seed, tier, log):
     for prof in ("mixed", "rebuild_finish", "rebuild"):
         for _ in range(n_for(tier, 3, 15)):
             for _try in range(20):
-                s = gen.gen_scenario(rng.randrange(10**9), prof, dict(p_late=0.0, p_reuse=0.0))
+                s = gen.gen_scenario(rng.randrange(10**9), prof, dict(p_late=0.0, p_reuse=0.0, p_scalar_ctor=0.0))
                 if len(s["events"]) >= 2:
                     scns.append(s)
                     break
@@ -141,7 +141,8 @@ def _gen_many(seed, tier, tag, profiles, nq, nt, pred=None, overrides=None):
             for _try in range(30):
                 # the differential runs derive twins from the scenario: late registration (which names
                 # events by position) is exercised by the shared suite and by extra_c10 only
-                s = gen.gen_scenario(rng.randrange(10**9), prof, dict(overrides or {}, p_late=(overrides or {}).get("p_late", 0.0), p_reuse=(overrides or {}).get("p_reuse", 0.0)))
+                s = gen.gen_scenario(rng.randrange(10**9), prof, dict(overrides or {}, p_late=(overrides or {}).get("p_late", 0.0), p_reuse=(overrides or {}).get("p_reuse", 0.0),
+                                                                        p_scalar_ctor=(overrides or {}).get("p_scalar_ctor", 0.0)))
                 if pred is None or pred(s):
                     out.append(s)
                     break
@@ -191,6 +192,32 @@ def extra_c18(seed, tier, log):
                 failures.append(_fail("C18", a, f"order variants differ in an event-free run: {diffs[0]}", sig="alt-noalt-differ"))
     return dict(failures=failures, evaluations=len(jobs), scenarios=scenarios, obligations=[],
                 samples=[dict(kind="psi=1,tau=dt vs base (bitwise); alt vs noalt event-free (1e-9)", pairs=len(meta))])
+
+
+def extra_c05(seed, tier, log):
+    """Every way of driving a run stops at the first negative inventory: loop(), loop(show_progress=True)
+    and manual stepping report the crash at the same step with the same records, and none goes on."""
+    scns, rng = _gen_many(seed, tier, "c05", ["exhaust", "nonreal", "shortage"], 3, 10)
+    jobs, meta = [], []
+    for s in scns:
+        sp = copy.deepcopy(s)
+        sp["sim"]["show_progress"] = True
+        sp["id"] = s["id"] + "-progress"
+        jobs += [(s, dict(mode="step")), (s, dict(mode="loop")), (sp, dict(mode="loop"))]
+        meta.append(s)
+    res = run_many(jobs)
+    failures, scenarios, n_crash = [], {}, 0
+    for i, s in enumerate(meta):
+        a, b, c = res[3 * i], res[3 * i + 1], res[3 * i + 2]
+        scenarios[s["id"]] = s
+        if a.get("crashed"):
+            n_crash += 1
+        for name, tr in (("loop()", b), ("loop() of a simulation built with show_progress=True", c)):
+            d = compare_runs(a, tr, bitwise=True)
+            if d:
+                failures.append(_fail("C05", s, f"{name} does not behave as manual stepping: {d[0]}", sig="driving-mode-differs"))
+    return dict(failures=failures, evaluations=len(jobs), scenarios=scenarios, obligations=[],
+                samples=[dict(kind="manual stepping vs loop() vs loop(show_progress=True)", scenarios=len(meta), crashed=n_crash)])
 
 
 def extra_c10(seed, tier, log):
@@ -615,9 +642,45 @@ def extra_c16(seed, tier, log):
             scenarios[c["id"]] = c
             failures.append(_fail("C16", c, f"saving the stocks record to a file after another simulation ran without stocks: {d[0]}",
                                   sig="records-depend-on-history"))
+    # (6) looking at the results while the simulation is running (public properties, twice or more) neither
+    # changes nor freezes them: the last look equals the underlying records and an identical run looked at once
+    n_obs = 0
+    for s in scns[: n_for(tier, 3, 8)]:
+        s = copy.deepcopy(s)
+        s["sim"]["register_stocks"] = True
+        for store in ("memory", "files"):
+            s2 = copy.deepcopy(s)
+            if store == "files":
+                s2["sim"]["save_records"] = list(drive.REC_ATTR)
+                s2["id"] = s["id"] + "-obs-files"
+            nst = max(2, s["sim"]["n"] // max(1, int(s["model"]["dt"])))
+            ks = sorted({max(1, nst // 3), max(2, (2 * nst) // 3)})
+            once = drive.run(s2, mode="step", tap=False, observe_at=[10**9])
+            many = drive.run(s2, mode="step", tap=False, observe_at=ks)
+            evals += 2
+            n_obs += 1
+            if once.get("error") is not None or many.get("error") is not None:
+                continue
+            scenarios[s2["id"]] = s2
+            end1, end2 = (once.get("observed") or {}).get("end") or {}, (many.get("observed") or {}).get("end") or {}
+            for name, a in end2.items():
+                b = end1.get(name)
+                raw = (many.get("records") or {}).get(name)
+                if a is None or b is None:
+                    if (a is None) != (b is None):
+                        failures.append(_fail("C16", s2, f"record {name} can be read after one look but not after several (or conversely)",
+                                              sig=f"observation-changes-availability:{name}"))
+                    continue
+                if a.shape != b.shape or not np.array_equal(a.astype(float), b.astype(float), equal_nan=True):
+                    failures.append(_fail("C16", s2, f"record {name} ({store}) read at the end differs after it was also read at steps {ks}",
+                                          sig=f"observation-changes-record:{name}"))
+                    continue
+                if raw is not None and not np.array_equal(a.astype(float).reshape(-1), np.asarray(raw, dtype=float).reshape(-1), equal_nan=True):
+                    failures.append(_fail("C16", s2, f"record {name} ({store}) as returned by the public property differs from the stored record",
+                                          sig=f"property-differs-from-record:{name}"))
     return dict(failures=failures, evaluations=evals, scenarios=scenarios, obligations=[],
-                samples=[dict(kind="row t vs observed state; fill; loop vs step; file vs memory for subsets; JSON artefacts; early stop; histories",
-                              scenarios=len(scns), histories=n_hist)])
+                samples=[dict(kind="row t vs observed state; fill; loop vs step; file vs memory for subsets; JSON artefacts; early stop; histories; repeated observation",
+                              scenarios=len(scns), histories=n_hist, observed_runs=n_obs)])
 
 
 def extra_c17(seed, tier, log):
@@ -628,6 +691,11 @@ def extra_c17(seed, tier, log):
     from harness import drive, scen
     failures, scenarios, evals = [], {}, 0
     scns, rng = _gen_many(seed, tier, "c17", ["mixed", "rebuild"], 3, 10, pred=lambda s: len(s["events"]) >= 1)
+    # every kind of parameter container at least once: a dictionary of durations together with a list of
+    # inputs declared infinite, restoration times as a dictionary, capital as a labelled object
+    more, _ = _gen_many(seed, tier, "c17b", ["mixed"], 2, 4, pred=lambda s: len(s["events"]) >= 1,
+                        overrides={"inv_mode": "dict_inf_list", "class": "psi"})
+    scns = scns + more
     for s in scns:
         scenarios[s["id"]] = s
         solo = drive.run(s, tap=False)
@@ -651,7 +719,22 @@ def extra_c17(seed, tier, log):
         mriot = scen.build_mriot(s)
         snap = {k: getattr(mriot, k).copy(deep=True) for k in ("Z", "Y", "x", "A")}
         kw_model = copy.deepcopy(s["model"])
-        model = scen.build_model(s, mriot)
+        cls_, kw_user = scen.model_kwargs(s)
+        kw_before = copy.deepcopy(kw_user)
+        model = cls_(mriot, **kw_user)
+
+        def same_container(a, b):
+            if hasattr(a, "equals"):
+                return a.equals(b) and list(a.index) == list(b.index)
+            if isinstance(a, np.ndarray):
+                return np.array_equal(a, b)
+            if isinstance(a, dict):
+                return list(a.items()) == list(b.items())
+            return a == b
+        for k_ in kw_user:
+            if not same_container(kw_user[k_], kw_before[k_]):
+                failures.append(_fail("C17", s, f"building a model modified the caller's argument {k_}: {kw_before[k_]!r} -> {kw_user[k_]!r}"[:300],
+                                      sig=f"model-argument-mutated:{k_}"))
         for k, v in snap.items():
             cur = getattr(mriot, k)
             if not (cur.equals(v) and list(cur.index) == list(v.index) and list(cur.columns) == list(v.columns)):
@@ -1265,6 +1348,13 @@ def extra_c20(seed, tier, log):
         expect_reject("psi above 1", s)
         s = base(); s["model"]["class"] = "psi"; s["model"]["psi"] = 1.0; s["model"]["inventory_restoration_tau"] = 5; s["id"] += "-psi1"
         expect_accept("psi equal to 1", s)
+        for form in ("str_dot", "str_us", "int"):
+            s = base(); s["model"]["class"] = "psi"; s["model"]["psi"] = 2.0 if form == "int" else 1.2; s["model"]["psi_form"] = form
+            s["id"] += f"-psi-{form}"
+            expect_reject(f"psi above 1 written as {form}", s)
+            s = base(); s["model"]["class"] = "psi"; s["model"]["psi"] = 1.0 if form == "int" else 0.8; s["model"]["psi_form"] = form
+            s["model"]["inventory_restoration_tau"] = 5; s["id"] += f"-psiok-{form}"
+            expect_accept(f"psi within [0, 1] written as {form}", s)
         # --- events
         for tau in (2.5, 0, -3):
             s = base(); e, *_ = ev_rec(s, tau=tau); s["events"] = [e]; s["id"] += f"-tau{tau}"
